@@ -7,6 +7,7 @@ CONSTANTS
   MaxSubs = 2
   MaxTopics = 1
   MaxWriters = 1
+  MaxCfts = 0
   MaxReaders = 1
   TopicNames = {"A", "B"}
   MaxOps = 5
